@@ -145,10 +145,18 @@ def jobSim (j : Json) : Except String Json := do
   let qlen := (getNatField j "qlen").toOption.getD times.length
   let qdt : α := (getNum (α := α) j "qdt").toOption.getD m.dt
   let q0 := (DQ.setup m.props.length qlen qdt).setCurrentTime m.t0
-  let vm : VolModel α ← match j.getObjVal? "volmodel" with
-    | .ok v => decVolModel v
-    | .error _ => pure .const
   let gen := Uniform.gen (α := α)
+  -- the volume object is initialised after seeding and before the simulation (it may draw)
+  let (vm, g0) : VolModel α × Uniform.σ α ← match j.getObjVal? "volmodel" with
+    | .ok v => do
+      let ty ← getStrField v "type"
+      match ty with
+      | "stt" => pure (initTimeThreshold gen m.twoPi (← getNum v "ln2") (← getNum v "cycle") (← getNum v "avg")
+                        (← getNum v "noise") m.t0 vol0 g0)
+      | "statedep" => pure (initStateDep gen m.twoPi (← getNum v "avg") (← getNum v "noise")
+                        (← decTerm (← v.getObjVal? "growth")) g0)
+      | _ => do pure ((← decVolModel v), g0)
+    | .error _ => pure (.const, g0)
   let s0 := initState m x0 p0 g0 vol0 q0
   let iter ← match kind with
     | "ssa" => pure (ssaIter gen m times)
@@ -169,6 +177,33 @@ def jobSim (j : Json) : Except String Json := do
       ("queue", dumpQueue s.q),
       ("log", log)]
 
+/-- consecutive draws from one of the samplers of random.pyx after seeding. -/
+def jobRv (j : Json) : Except String Json := do
+  let kind ← getStrField j "kind"
+  let n ← getNatField j "n"
+  let args ← getNumList (α := α) j "args"
+  let twoPi : α ← getNum j "twoPi"
+  let gen := Uniform.gen (α := α)
+  let mut s ← Uniform.init (α := α) j
+  let mut outs : Array Json := #[]
+  for _ in List.range n do
+    match kind with
+    | "uniform" =>
+      let (u, s') := gen s
+      s := s'; outs := outs.push (Codec.enc u)
+    | "exponential" =>
+      let (u, s') := exponentialRv gen (args.getD 0 1) s
+      s := s'; outs := outs.push (Codec.enc u)
+    | "normal" =>
+      let (u, s') := normalRv gen twoPi (args.getD 0 0) (args.getD 1 1) s
+      s := s'; outs := outs.push (Codec.enc u)
+    | "gamma" =>
+      match gammaRv gen twoPi (args.getD 0 1) (args.getD 1 1) 10000 s with
+      | some (u, s') => s := s'; outs := outs.push (Codec.enc u)
+      | none => throw "gamma: out of fuel"
+    | k => throw s!"bad rv kind {k}"
+  return Json.mkObj [("draws", Json.arr outs)]
+
 def dispatch (op : String) (j : Json) : Except String Json :=
   match op with
   | "prop" => jobProp (α := α) j
@@ -176,6 +211,7 @@ def dispatch (op : String) (j : Json) : Except String Json :=
   | "network" => jobNetwork (α := α) j
   | "dq" => jobDQ (α := α) j
   | "sim" => jobSim (α := α) j
+  | "rv" => jobRv (α := α) j
   | _ => throw s!"unknown op {op}"
 end
 
